@@ -14,7 +14,7 @@ import math
 from datetime import datetime, timedelta, timezone
 from typing import Any
 
-from .. import fakes
+from .. import batdata, fakes
 from ..vloop import LoopMonitor, run_virtual
 
 ID = "C16"
@@ -33,7 +33,7 @@ LEVEL_NOTE = ("events are >= 3 ms apart and decision windows are 1 ms, so verdic
               ' Build phase: manager tier (outcomes as the real BatteryManager reports them), pool tier with notification conservation and repeated identical failures, identical samples delivered again, non-UTC message stamps, process in a DST zone.')
 RULE = ("seeded scripts; distinct = canonical script JSON; non-trivial = >=1 fault or silence and >=1 failed set-power "
         "while working")
-REQUIRED_BUCKETS = ["pool-identical-failure-message-twice", "messages-stamped-in-a-non-utc-zone", "identical-battery-sample-delivered-again-when-too-old", "manager-tier:all-calls-of-the-next-request-succeed", "manager-tier:failed-batteries-reported-uncertain", "fault:state", "fault:relay", "fault:cap", "fault:crit", "fault:stale", "inv-fault:state",
+REQUIRED_BUCKETS = ["pool-identical-failure-message-twice", "messages-stamped-in-a-non-utc-zone", "identical-battery-sample-delivered-again-when-too-old", "manager-tier:all-calls-of-the-next-request-succeed", "manager-tier:failed-batteries-reported-uncertain", "manager-tier:blocked-battery-not-commanded-by-the-next-request", "fault:state", "fault:relay", "fault:cap", "fault:crit", "fault:stale", "inv-fault:state",
                     "inv-fault:crit", "silence>maxage:bat", "silence>maxage:inv", "silence<maxage", "set-power-failed",
                     "set-power-succeeded", "blocked-twice(back-off)", "back-off-capped", "recovered", "uncertain-seen",
                     "pool-fallback-to-uncertain", "pool-tier", "pool-fallback-to-uncertain(live)",
@@ -66,6 +66,11 @@ def gen(rng: Any, tier: str, i: int) -> Any:
             case = c15.gen(rng, tier, i)
         case.update({"kind": "manager", "followup": True, "timeout": 5.0, "latency": 0.0})
         case.pop("lat_vec", None)
+        if len(case["groups"]) >= 2 and rng.random() < 0.6:
+            # only the calls for some of the groups fail: their batteries are blocked while the others keep working, and
+            # the next request (for all of them) is served by the working ones alone
+            k = rng.randint(1, len(case["groups"]) - 1)
+            case["fail_groups"] = sorted(rng.sample(range(len(case["groups"])), k))
         return case
     ev: list[list[Any]] = []
     t = 0.0
@@ -245,17 +250,20 @@ def _check_manager(case: dict[str, Any], rec: Any) -> None:
     from . import c15
 
     rec.bucket("manager-tier(outcomes reported by the real BatteryManager)")
-    n_inv = sum(len(g["invs"]) for g in case["groups"])
+    fail_groups = case.get("fail_groups")
+    vec = [("exc" if fail_groups is None or g in fail_groups else "ok") for g, grp in enumerate(case["groups"]) for _ in grp["invs"]]
+    failing_invs = {batdata.inv_id(g, j) for g, grp in enumerate(case["groups"]) for j in range(len(grp["invs"]))
+                    if fail_groups is None or g in fail_groups}
     out: dict[str, Any] = {"rounds": []}
     mcase = dict(case, kind="battery")
-    run_virtual(lambda: c15._battery_run(mcase, ["exc"] * n_inv, out), monitor=LoopMonitor())  # noqa: SLF001
+    run_virtual(lambda: c15._battery_run(mcase, vec, out), monitor=LoopMonitor())  # noqa: SLF001
     rec.count("scripts_run")
     if len(out["rounds"]) < 2 or not out.get("pool_status"):
         rec.harness_problem("manager tier: fewer than two rounds or no pool status observed")
         return
     first, second = out["rounds"][0], out["rounds"][1]
     last = out["pool_status"][-1]
-    failed_first = {b for c in first["calls"] for b in first["inv_bats"][c["id"]]}
+    failed_first = {b for c in first["calls"] if c["id"] in failing_invs for b in first["inv_bats"][c["id"]]}
     if any(set(st["uncertain"]) & failed_first for st in out["pool_status"]):
         rec.bucket("manager-tier:failed-batteries-reported-uncertain")
     # every API call of the first request raised: each battery behind a commanded inverter that was reported working
@@ -277,6 +285,23 @@ def _check_manager(case: dict[str, Any], rec: Any) -> None:
                            "pool_status_history": out["pool_status"][:8], "first_result": repr(first["result"])[:300]})
     res2 = second["result"]
     rec.count("status_reports_checked", len(out["pool_status"]))
+    if fail_groups is not None and t1 is not None:
+        # a blocked battery that the next request does not command ("not mentioned") stays blocked: its first blocking
+        # period is 1 s, the second request is answered 0.4 s after the first
+        commanded2 = {b for c in second["calls"] for b in second["inv_bats"][c["id"]]}
+        blocked = set()
+        for st in out["pool_status"]:
+            if st["t"] <= second.get("t_done", t1) - 0.2:
+                blocked = set(st["uncertain"]) & failed_first
+        idle = blocked - commanded2
+        if idle:
+            rec.bucket("manager-tier:blocked-battery-not-commanded-by-the-next-request")
+            early = sorted(idle - set(last["uncertain"]))
+            if early and last["t"] < t1 + 0.95:
+                rec.violation("blocking-ended-although-the-battery-was-not-commanded",
+                              {"via": "BatteryManager.distribute_power", "batteries": early, "blocked_since": t1, "now": last["t"],
+                               "second_request_commanded": sorted(commanded2), "pool_status_history": out["pool_status"][-6:],
+                               "second_result": repr(res2)[:300]})
     if isinstance(res2, Success) and second["calls"]:
         rec.bucket("manager-tier:all-calls-of-the-next-request-succeed")
         still = sorted(set(res2.succeeded_components) & set(last["uncertain"]))
